@@ -17,6 +17,8 @@ def net(a, l):
 
 PREFIX_LISTS = [
     "D", "-",
+    net("10.0.0.0", 8) + ";" + net("10.0.0.0", 16) + ";" + net("10.0.0.0", 24),      # nested, same base, shorter first
+    net("192.168.0.0", 24) + ";" + net("192.168.0.0", 16),                            # nested, same base, longer first
     net("10.0.0.0", 8) + ";" + net("10.1.0.0", 16) + ";" + net("10.1.2.0", 24),      # nested
     net("192.168.2.0", 24),
     net("1.2.3.4", 32) + ";" + net("1.2.3.4", 32),                                    # /32, duplicate
@@ -25,16 +27,67 @@ PREFIX_LISTS = [
     net("203.0.113.128", 25) + ";" + net("203.0.113.0", 24),
     net("172.16.0.0", 12) + ";" + net("172.20.5.0", 30),
 ]
-ADDR_LISTS = ["-", "-", net("222.173.0.0", 16) + ";" + net("1.2.3.4", 32), "P", net("11.11.0.0", 17), net("8.8.8.8", 32) + ";" + net("8.8.0.0", 16)]
+ADDR_LISTS = ["-", "-", net("192.168.0.0", 24), "P;" + net("10.1.0.0", 16), net("10.0.0.0", 8) + ";" + net("10.1.0.0", 16) + ";" + net("10.200.3.4", 32), net("222.173.0.0", 16) + ";" + net("1.2.3.4", 32), "P", net("11.11.0.0", 17), net("8.8.8.8", 32) + ";" + net("8.8.0.0", 16)]
 
 
 def rand_prefix_list(rng):
-    k = rng.choice([1, 1, 2, 3])
+    """structured lists: independent prefixes, nested chains with the SAME base address or a different one,
+    shorter-first / longer-first / shuffled order, duplicates, siblings"""
+    L = [1, 2, 5, 8, 12, 16, 17, 20, 23, 24, 25, 28, 30, 31, 32]
+    kind = rng.randrange(6)
     items = []
-    for _ in range(k):
-        l = rng.choice([1, 2, 5, 8, 12, 16, 20, 23, 24, 25, 28, 30, 31, 32, rng.randrange(0, 33)])
-        items.append(net(rng.getrandbits(32), l))
+    if kind == 0:
+        for _ in range(rng.choice([1, 1, 2, 3])):
+            items.append(net(rng.getrandbits(32), rng.choice(L + [rng.randrange(0, 33)])))
+    elif kind in (1, 2):                      # nested chain, same base address
+        base = rng.getrandbits(32) & ~0xFFFFFF if kind == 1 else rng.getrandbits(32) & ~0xFFFF
+        ls = sorted(rng.sample([l for l in L if l <= (8 if kind == 1 else 16)] + [l for l in L if l > 16], rng.choice([2, 3])))
+        items = [net(base, l) for l in ls]
+    elif kind == 3:                           # nested chain, different base
+        a = rng.getrandbits(32)
+        ls = sorted(rng.sample(L, rng.choice([2, 3])))
+        items = [net(a, l) for l in ls]
+    elif kind == 4:                           # siblings and a duplicate
+        a = rng.getrandbits(32)
+        l = rng.choice([8, 16, 24, 25, 31, 32])
+        items = [net(a, l), net(a ^ (1 << (32 - l)), l), net(a, l)]
+    else:                                     # a default block refined
+        items = [rng.choice(["167772160/8", "2886729728/12", "3232235520/16"])]
+        a, l = items[0].split("/")
+        items.append(net(int(a), rng.choice([x for x in L if x > int(l)])))
+    order = rng.randrange(3)
+    if order == 1:
+        items.reverse()
+    elif order == 2:
+        rng.shuffle(items)
     return ";".join(items)
+
+
+SPECIAL4 = ["0.0.0.0", "255.255.255.255", "127.0.0.1", "169.254.1.1", "224.0.0.5", "239.255.255.250", "240.0.0.1", "100.64.0.1", "192.0.2.1",
+            "198.51.100.7", "203.0.113.77", "10.0.0.0", "10.255.255.255", "172.16.0.1", "172.31.255.254", "192.168.0.0", "192.168.255.255", "8.8.8.8", "1.2.3.4", "128.0.0.0", "191.255.255.255"]
+SPECIAL6 = [0, 1, 0xFE80 << 112 | 1, 0xFE80 << 112 | 0x0202B3FFFE1E8329, 0xFEC0 << 112 | 1, 0xFF02 << 112 | 1, 0xFF02 << 112 | 2, 0xFC00 << 112 | 0xABCD, 0xFD00 << 112 | 1,
+            0x20010DB8 << 96 | 1, 0x20010DB8 << 96 | 0xFFFF, 0x2002 << 112 | 0xC0000201 << 80, 0x0064FF9B << 96 | 0xC0000201, 0xFFFF << 32 | 0x01020304, 0x01020304, 0xFEBF << 112 | 0xFFFF, 0xFE7F << 112 | 0xFFFF, (1 << 128) - 1, 0x2607F8B0 << 96 | 0x200E]
+
+
+def ip4int(s):
+    p = [int(x) for x in s.split(".")]
+    return (p[0] << 24) | (p[1] << 16) | (p[2] << 8) | p[3]
+
+
+def special_addrs(rng, width, count):
+    """well-known addresses of the family and addresses sharing exactly k bits with them"""
+    pool = [ip4int(s) for s in SPECIAL4] if width == 32 else SPECIAL6
+    res = []
+    for _ in range(count):
+        b = rng.choice(pool)
+        if rng.random() < 0.5:
+            res.append(b)
+        else:
+            k = rng.randrange(0, width)
+            bit = 1 - ((b >> (width - k - 1)) & 1)
+            low = rng.getrandbits(width - k - 1) if width - k - 1 > 0 else 0
+            res.append(((b >> (width - k)) << (width - k) if k else 0) | (bit << (width - k - 1)) | low)
+    return res
 
 
 def addrs_sharing(rng, width, count):
@@ -54,6 +107,11 @@ def addrs_sharing(rng, width, count):
     return res
 
 
+def boundary_nets(key):
+    return {"D": ["0/1", "2147483648/2", "3221225472/3", "3758096384/4", "167772160/8", "2886729728/12", "3232235520/16"],
+            "P": ["167772160/8", "2886729728/12", "3232235520/16"]}[key]
+
+
 def boundary_addrs(pfx_field):
     """first/last address of each listed prefix and their outside neighbours"""
     res = []
@@ -61,7 +119,9 @@ def boundary_addrs(pfx_field):
         nets = {"D": ["0/1", "2147483648/2", "3221225472/3", "3758096384/4", "167772160/8", "2886729728/12", "3232235520/16"],
                 "P": ["167772160/8", "2886729728/12", "3232235520/16"], "-": []}[pfx_field]
     else:
-        nets = pfx_field.split(";")
+        nets = []
+        for it in pfx_field.split(";"):
+            nets += boundary_nets(it) if it in ("D", "P") else [it]
     for n in nets:
         a, l = n.split("/")
         a, l = int(a), int(l)
@@ -107,7 +167,7 @@ def ip4_case(rng, dirs="a", n_addr=8, B=None, pfx=None, addrs=None, salt=None, e
     pfx = (rng.choice(PREFIX_LISTS + [rand_prefix_list(rng)])) if pfx is None else pfx
     addrs = rng.choice(ADDR_LISTS) if addrs is None else addrs
     salt = rng.choice(SALTS) if salt is None else salt
-    xs = addrs_sharing(rng, 32, n_addr)
+    xs = addrs_sharing(rng, 32, n_addr) + special_addrs(rng, 32, 3)
     b = boundary_addrs(pfx) + (boundary_addrs(addrs) if addrs != "-" else [])
     if b:
         xs += rng.sample(b, min(len(b), 4))
@@ -118,7 +178,7 @@ def ip4_case(rng, dirs="a", n_addr=8, B=None, pfx=None, addrs=None, salt=None, e
 def ip6_case(rng, dirs="a", n_addr=3, B=None, salt=None):
     B = rng.choice(B6) if B is None else B
     salt = rng.choice(SALTS) if salt is None else salt
-    xs = addrs_sharing(rng, 128, n_addr)
+    xs = addrs_sharing(rng, 128, n_addr) + special_addrs(rng, 128, 3)
     return ["ip6", str(B), "md5:" + salt, " ".join(rng.choice(dirs) + str(x) for x in xs)]
 
 
@@ -128,3 +188,13 @@ def case_width(c):
 
 def ops_of(c):
     return c[-1].split(" ")
+
+
+def long_history(rng, n, B=None, pfx="D", addrs="-", salt=None):
+    """one ip4 instance asked for n distinct addresses, then asked again for the first 200 (impl-only search: the
+    extracted model's list-based memo is quadratic on such sizes)"""
+    B = rng.choice([0, 8]) if B is None else B
+    salt = rng.choice(SALTS) if salt is None else salt
+    xs = list({rng.getrandbits(32) for _ in range(n)})
+    ops = ["a%d" % x for x in xs] + ["a%d" % x for x in xs[:200]]
+    return ["ip4", str(B), "md5:" + salt, pfx, addrs, " ".join(ops)]
